@@ -1,18 +1,36 @@
 #!/bin/bash
-# usage: tools/seedtest.sh <ID> <patch.diff> [tier]   -- apply a seeded change to /repo, run the check, undo it
+# usage: tools/seedtest.sh <ID> <patch.diff> [tier]
+# Applies a seeded change, runs the check, undoes the change.  By default the
+# change is applied to a scratch worktree of /repo's HEAD (so that background
+# runs against /repo are not disturbed); SEED_INPLACE=1 applies it to /repo itself.
 ID=$1; PATCH=$2; TIER=${3:-quick}
-cd /repo || exit 3
-if [ -n "$(git status --porcelain)" ]; then echo "seedtest: /repo not clean"; exit 3; fi
+if [ -n "$SEED_INPLACE" ]; then
+  R=/repo
+  cd /repo || exit 3
+  if [ -n "$(git status --porcelain)" ]; then echo "seedtest: /repo not clean"; exit 3; fi
+else
+  R=/tmp/seedwt.$$
+  git -C /repo worktree add -q --detach $R HEAD || exit 3
+  cd $R || exit 3
+fi
+cleanup() {
+  if [ -n "$SEED_INPLACE" ]; then
+    git -C /repo checkout -- . ; git -C /repo clean -fdq
+  else
+    cd /verif; git -C /repo worktree remove --force $R; git -C /repo worktree prune
+  fi
+}
 if ! git apply --3way "$PATCH" 2>/tmp/seedtest.err && ! patch -p1 -s --fuzz=3 < "$PATCH"; then
-  echo "seedtest: patch does not apply"; cat /tmp/seedtest.err; git checkout -- .; git clean -fdq; exit 3
+  echo "seedtest: patch does not apply"; cat /tmp/seedtest.err; cleanup; exit 3
 fi
 git reset -q
 cd /verif
-./run $ID $TIER > /tmp/seedtest.$ID.out 2>&1
+VERIF_REPO=$R ./run $ID $TIER > /tmp/seedtest.$ID.$$.out 2>&1
 rc=$?
-grep -E "^(VIOLATION|KNOWN-FINDING|violation key|C[0-9]+ (quick|thorough):|run:)" /tmp/seedtest.$ID.out | cut -c1-400
+grep -E "^(VIOLATION|KNOWN-FINDING|violation key|C[0-9]+ (quick|thorough):|run:)" /tmp/seedtest.$ID.$$.out | cut -c1-400
 echo "seedtest: exit=$rc"
-git -C /repo checkout -- . ; git -C /repo clean -fdq
+rm -f /tmp/seedtest.$ID.$$.out
+cleanup
 # the evidence file was rewritten by a run against a modified tree: restore the committed one
 git -C /verif checkout -- evidence/$ID.json 2>/dev/null
 # replays from seeded runs are not kept
